@@ -30,7 +30,7 @@ EXTENDS DbLifecycle, Json, IOUtils, SequencesExt
 
 TraceRecs == ndJsonDeserialize(IOEnv.TRACE)
 VARIABLES l,
-          pendOpen,  \* [thread -> set of BOOLEAN]: may the lock have been held at some point since the thread's OpenCall ({} = no call pending)
+          pendOpen,  \* [thread -> subset of {"H", "F", "N"}] since the thread's OpenCall ({} = no call pending): "H" the lock may have been held at some point, "F" it was free at the call, "N" the version marker was absent at the call
           unl        \* instances between their Unlock event (logged before the release) and their Unlocked event (after)
 Ev == TraceRecs[l]
 tvars == <<vars, l, pendOpen, unl>>
@@ -42,7 +42,7 @@ TraceInit ==
     /\ TLCSet(1, 1)
 
 Consume == l' = l + 1
-NoteLock(held) == [t \in TThreads |-> IF pendOpen[t] = {} THEN {} ELSE pendOpen[t] \cup {held}]
+NoteLock(held) == [t \in TThreads |-> IF pendOpen[t] = {} \/ ~held THEN pendOpen[t] ELSE pendOpen[t] \cup {"H"}]
 \* The logged holding interval of the lock (after the acquisition .. before the release) lies
 \* inside the real one.  A refusal with `Locked` needs the opposite approximation: the lock MAY
 \* be held while the model says so, while an instance is between Unlock and Unlocked, and while
@@ -78,8 +78,9 @@ TraceNext ==
        \* ---- open attempts
        \/ /\ Ev.ev = "OpenCall" /\ Consume
           \* (this attempt may in turn explain a refusal of every attempt already in flight)
-          /\ pendOpen' = [t \in TThreads |-> IF t = Ev.t THEN {MayBeHeld(Ev.t)}
-                                             ELSE IF pendOpen[t] = {} THEN {} ELSE pendOpen[t] \cup {TRUE}]
+          /\ pendOpen' = [t \in TThreads |-> IF t = Ev.t THEN {IF MayBeHeld(Ev.t) THEN "H" ELSE "F"}
+                                                                \cup (IF marker = "none" THEN {"N"} ELSE {})
+                                             ELSE IF pendOpen[t] = {} THEN {} ELSE pendOpen[t] \cup {"H"}]
           /\ UNCHANGED <<vars, unl>>
        \* the instance exists and holds the lock: nobody else may hold it, the marker is compatible
        \* (or the directory is new), and no journal of an earlier instance is still unsynced
@@ -100,9 +101,12 @@ TraceNext ==
        \/ /\ Ev.ev = "OpenRet" /\ Consume
           /\ \/ Ev.res = "ok"
              \* refused with a lock error: the lock was held at some point during the call
-             \/ Ev.res = "locked" /\ TRUE \in pendOpen[Ev.t]
+             \/ Ev.res = "locked" /\ "H" \in pendOpen[Ev.t]
              \* refused as incompatible: the marker is (existing database without marker included)
              \/ Ev.res = "invalid_version" /\ marker \notin GoodMarkers /\ (marker = "none" => files.meta)
+             \* ... or the attempt went down the creation path (no marker at the call) and found, with
+             \* the lock held, that somebody else had created the database in the meantime
+             \/ Ev.res = "invalid_version" /\ "N" \in pendOpen[Ev.t] /\ marker \in GoodMarkers
              \/ Ev.res = "io_error"
           /\ pendOpen' = [pendOpen EXCEPT ![Ev.t] = {}]
           /\ UNCHANGED <<vars, unl>>
